@@ -138,3 +138,11 @@ META["C18"] = {
     "text": "Exploration: c18-hpack ~5.7e4 (2.8e5) evaluations of encoder/decoder sessions over 3..12 header blocks with table-size changes {0,1,4096,65536,...} and SetMaxDynamicTableSize calls between blocks, header lists 0..200 fields (repeated names, empty / 64 KiB values, hostile and Huffman-friendly strings, sensitive flag), MOSN->x/net, x/net->MOSN, and an RFC-written byte stream into both decoders. c18-framer ~1.1e5 (5.5e5) valid frame streams (all frame types, padding, priority, header blocks split over 0..9 CONTINUATION frames incl. empty fragments, frames up to 1 MiB) read by x/net and by MFramer whole and in several fragmentings: type, flags, stream, length, payload and decoded header fields must agree; non-termination is decided by counting buffer accesses. c18-flow 500 (3000) scripted cases with the real network.Connection + stream/http2 + MServerConn/MClientConn as sender: the peer's ledger (updated before each WINDOW_UPDATE it writes) bounds cumulative DATA per stream and per connection, checks MAX_FRAME_SIZE on every DATA frame, body content, header blocks kept contiguous, initial windows {0,1,100,65535,2^31-1}, INITIAL_WINDOW_SIZE changes mid-stream, completion judged only after all needed window was released.",
     "note": "Trusts x/net/http2 v0.23.0. Two zones where the reference has no reading are not judged (its own double table-size update at a block start with entries left; PUSH_PROMISE + CONTINUATION). The only watchdog-based verdict ('stalled with open window') needs: PING ACK proves all frames were processed, every window is open, zero DATA during the stall watchdog, progress resumes only after an unneeded 1-byte WINDOW_UPDATE, 3/3 reproductions; any other watchdog firing is inconclusive.",
 }
+
+META["C09"] = {
+    "engine": "vworker",
+    "design_ref": "DESIGN.md §3 C09, §2.4",
+    "technique": "upstream-side per-connection automaton (exclusive lease) and taint tracking (no reuse after an abandoned exchange) over recorded request arrivals, pool books (verif accessors) against the kernel's socket table at quiescent points, and an event-triggered capacity test, all through a running proxy with a harness-registered ping-pong xprotocol",
+    "text": "Exploration with a bounded-exhaustive part: a real in-process MOSN with two ping-pong pairings — HTTP/1.1 and 'boltpp' (bolt's wire format registered through the public codec API with pool mode PingPong) — on clusters limited to max_connections=3 (and max_requests=2 for the overflow route). All operation sequences of depth 2 (3 thorough) over {ok, delayed ok, 5xx, stall -> proxy timeout, late reply, close, RST, half response, connect failure, one-way} run sequentially on one downstream connection, plus random sequences of 12..40 operations and 8-way concurrent rounds that force breaker overflow. Checked: a request never arrives on an upstream connection that still has an unanswered request; a request never arrives on a connection whose previous exchange the proxy abandoned (300 ms timeout); at quiescence every pool's total equals the established sockets to that upstream in /proc/net/tcp and idle == total; afterwards 3 concurrent requests are admitted on 3 distinct connections and a 4th is refused while they are in flight.",
+    "note": "The automaton counts an exchange as answered from the moment the upstream hands its reply to the socket (counting it after the write returned produced a false 'busy' alarm in an earlier version: the monitor's state must be updated atomically with what it shadows). Multiplexed pools (bolt, HTTP/2) are covered by the conservation checks of C10. GoAway and pool Shutdown are not driven.",
+}
